@@ -14,7 +14,7 @@ import SqlizeModel.Driver.Struct
 open Sqlize Sqlize.Driver
 
 def handlers : List (String × Handler) :=
-  [("snake", snakeHandler), ("pair", pairHandler), ("routes", routesHandler), ("script", scriptHandler), ("hash", hashHandler), ("calls", callsHandler), ("version", versionHandler), ("versionexcl", versionExclHandler), ("files", filesHandler), ("filesread", filesReadHandler), ("filesmisc", filesMiscHandler), ("filesseq", filesSeqHandler), ("filesseqfast", filesSeqFastHandler), ("filesover", filesOverHandler), ("export", exportHandler), ("race", raceHandler), ("history", historyHandler), ("struct", structHandler)]
+  [("snake", snakeHandler), ("pair", pairHandler), ("routes", routesHandler), ("script", scriptHandler), ("hash", hashHandler), ("calls", callsHandler), ("version", versionHandler), ("versionexcl", versionExclHandler), ("files", filesHandler), ("filesread", filesReadHandler), ("filesmisc", filesMiscHandler), ("filesseq", filesSeqHandler), ("filesseqfast", filesSeqFastHandler), ("filesover", filesOverHandler), ("export", exportHandler), ("race", raceHandler), ("history", historyHandler), ("historyv", historyVersionedHandler), ("struct", structHandler)]
 
 def handleLine (line : String) : String :=
   match SExp.parse line with
